@@ -103,7 +103,7 @@ PROPS = {
     "C05": {
         "id": "C05",
         "title": "No call corrupts memory or hangs: misuse is reported by exception",
-        "rules": ["G1", "G2", "G3", "G5", "G6", "E1", "A1", "Z1", "Z2", "D2", "G7", "N4", "A2", "Q1", "E2", "Y1", "Q2"],
+        "rules": ["G1", "G2", "G3", "G5", "G6", "E1", "A1", "Z1", "Z2", "D2", "G7", "N4", "A2", "Q1", "E2", "Y1", "Q2", "N2"],
         "clause": "guard completeness (mechanisms 1-3 of the anchors): every plan solve() checks the input length with a live "
                   "check before mixing it with plan tables; every foreign-bound subscript and caller-supplied index in a public "
                   "function is dominated by a live relating guard; slices are range-checked at creation and count-checked at "
@@ -126,7 +126,7 @@ PROPS = {
     "C06": {
         "id": "C06",
         "title": "Streaming processors are invariant to how the stream is framed",
-        "rules": ["H1", "V1", "P2", "P3", "P3b", "S2", "M2"],
+        "rules": ["H1", "V1", "P2", "P3", "P3b", "S2", "M2", "N4"],
         "clause": "structural necessary conditions of framing invariance: every array-valued state member a process() method rewrites "
                   "(delay line, history, overlap tail) receives a value that depends on its previous contents and on the input frame, "
                   "and the returned frame depends on the input and on that state (a history longer than the frame survives; no call "
